@@ -778,7 +778,16 @@ def E_bond_cutoff(repo, clause):
     img = [n for n in fn.own_nodes() if isinstance(n, ast.Assign) and isinstance(n.value, ast.BinOp) and isinstance(n.value.op, ast.Add)
            and any(isinstance(x, ast.Name) and "offset" in x.id for x in ast.walk(n.value))]
     ok = len(img) == 1 and o.target.elts[1].id in ast.unparse(img[0].value)
-    obs.append(Ob("E7", clause, fn, img[0] if img else fn.node, ok, "images are atom 1's position plus every offset", slot="image-positions"))
+    plain = False
+    if len(img) == 1:
+        v_ = img[0].value
+        sides = [v_.left, v_.right]
+        plain = isinstance(img[0].targets[0], ast.Name) and any(isinstance(x, ast.Name) and x.id == o.target.elts[1].id for x in sides) and \
+            any(isinstance(x, ast.Name) and "offset" in x.id for x in sides)
+    obs.append(Ob("E7", clause, fn, img[0] if img else fn.node, ok and plain,
+                  "images are atom 1's position plus every offset, for every atom (a fresh array per atom)%s" % (
+                      "" if plain or not ok else " -- the images are built conditionally / into a preallocated array; whether all images with the right dtype are used cannot be judged"),
+                  slot="image-positions", undecided=ok and not plain))
     return obs
 
 
